@@ -63,6 +63,11 @@ def main():
         meta["demo_without_change"] = "pass" if rc0 == 0 else "FAIL"
         rc, out = sh(["git", "apply", os.path.join(a.src, "patch.diff")], repo)
         if rc != 0:
+            # /repo HEAD may have moved since the seed was written (later fix: commits): try a 3-way merge
+            rc, out = sh(["git", "apply", "--3way", os.path.join(a.src, "patch.diff")], repo)
+            meta["patch_applied_with"] = "git apply --3way"
+            sh(["git", "reset", "-q"], repo)
+        if rc != 0:
             meta["verdict"] = "patch does not apply: " + out[-300:]
             print(json.dumps(meta, indent=1)); return 1
         rcb, outb = sh(["go", "build", "./..."], repo)
